@@ -109,7 +109,7 @@ class Effects:
         name = t.name
         if t.kind == "func" and t.fn is not None:
             if t.fn.fq == "vcs.VCSAPI.__call__":
-                alts = _const_alternatives(fn, call_arg(call, t.fn, "cmd_name"))
+                alts = _const_alternatives(fn, call_arg(call, t.fn, "cmd_name"), prog=self.prog)
                 if not alts:
                     sites.append(Site(fn, call, "VCS_UNKNOWN", {"cmd": None}))
                 for cmd in alts or []:
@@ -289,7 +289,7 @@ class Effects:
         return out
 
 
-def _const_alternatives(fn: FunctionInfo, e: T.Optional[ast.AST], depth: int = 0) -> T.Optional[T.List[str]]:
+def _const_alternatives(fn: FunctionInfo, e: T.Optional[ast.AST], depth: int = 0, prog: T.Optional[Program] = None) -> T.Optional[T.List[str]]:
     """The string constants an expression can denote: a literal, a conditional expression of such, or a local that is
     assigned exactly once to such.  None when it is anything else."""
     if e is None or depth > 4:
@@ -298,7 +298,7 @@ def _const_alternatives(fn: FunctionInfo, e: T.Optional[ast.AST], depth: int = 0
     if c is not None:
         return [c]
     if isinstance(e, ast.IfExp):
-        a, b = _const_alternatives(fn, e.body, depth + 1), _const_alternatives(fn, e.orelse, depth + 1)
+        a, b = _const_alternatives(fn, e.body, depth + 1, prog), _const_alternatives(fn, e.orelse, depth + 1, prog)
         return None if a is None or b is None else a + [x for x in b if x not in a]
     if isinstance(e, ast.Name):
         defs = []
@@ -309,11 +309,19 @@ def _const_alternatives(fn: FunctionInfo, e: T.Optional[ast.AST], depth: int = 0
                 defs.append(n.value)
             elif isinstance(n, (ast.AugAssign, ast.For, ast.NamedExpr)) and any(isinstance(x, ast.Name) and x.id == e.id and isinstance(x.ctx, ast.Store) for x in ast.walk(n.target)):
                 return None
+        if e.id not in fn.all_params and not defs and prog is not None:
+            # a module-level named constant (also imported): its folded value
+            try:
+                v = prog.fold(fn.module, e)
+            except AnalysisError:
+                v = None
+            if isinstance(v, str):
+                return [v]
         if e.id in fn.all_params or not defs:
             return None
         out: T.List[str] = []
         for d in defs:
-            alt = _const_alternatives(fn, d, depth + 1)
+            alt = _const_alternatives(fn, d, depth + 1, prog)
             if alt is None:
                 return None
             out += [x for x in alt if x not in out]
